@@ -11,3 +11,7 @@ import CantoVerif.Proofs.CoinswapArith
 import CantoVerif.Proofs.CoinswapEffects
 import CantoVerif.Proofs.CoinswapWF
 import CantoVerif.Props.C01
+import CantoVerif.Model.Epochs
+import CantoVerif.Model.Inflation
+import CantoVerif.Spec.Epochs
+import CantoVerif.Driver.Epochs
